@@ -8,6 +8,9 @@ from .psi import fmt
 
 I64 = (-(1 << 63), (1 << 63) - 1)
 U32 = (0, (1 << 32) - 1)
+INT_RANGES_ALL = {'u8': (0, 255), 'u16': (0, 65535), 'u32': (0, (1 << 32) - 1), 'u64': (0, (1 << 64) - 1), 'usize': (0, (1 << 64) - 1),
+                  'i8': (-128, 127), 'i16': (-32768, 32767), 'i32': (-(1 << 31), (1 << 31) - 1), 'i64': (-(1 << 63), (1 << 63) - 1),
+                  'isize': (-(1 << 63), (1 << 63) - 1)}
 INT_RANGES = {'i64': I64, 'u32': U32, 'i32': (-(1 << 31), (1 << 31) - 1), 'u64': (0, (1 << 64) - 1),
               'u16': (0, 65535), 'i128': (-(1 << 127), (1 << 127) - 1), 'usize': (0, (1 << 64) - 1),
               'isize': I64, 'u8': (0, 255), 'i16': (-32768, 32767), 'i8': (-128, 127), 'u128': (0, (1 << 128) - 1)}
@@ -290,6 +293,28 @@ def eval_int(v, env):
             return (x + y) & 0xffff if True else None
         if op == 'wsub':
             return (x - y) & 0xffff
+        if op == 'wmul':
+            return (x * y) & 0xffff
+        if op in ('Shl', 'ShlUnchecked') and 0 <= y < 128:
+            return x << y
+        if op in ('Shr', 'ShrUnchecked') and 0 <= y < 128:
+            return x >> y
+        if op == 'min':
+            return min(x, y)
+        if op == 'max':
+            return max(x, y)
+        if op == 'sat_add_u16':
+            return min(x + y, 0xffff)
+        if op == 'sat_sub_u16':
+            return max(x - y, 0)
+        if op == 'abs_diff':
+            return abs(x - y)
+    if op == 'BitNot' and len(a) == 2:
+        x = eval_int(a[0], env)
+        if x is None or a[1] not in INT_RANGES_ALL:
+            return None
+        lo, hi = INT_RANGES_ALL[a[1]]
+        return (~x) & hi if lo == 0 else ~x
     if len(a) == 1 and op == 'Not':
         x = eval_int(a[0], env)
         return None if x is None else int(not x)
